@@ -14,6 +14,10 @@ TRUSTED_BASE = [
 
 PROPS = {
     "C09": dict(
+        design_ref="DESIGN.md 5.9",
+        level_text="Coq theorems over an executable model of the VLQ encoder and SourceMapper (all integers with |n|<2^62, all operation histories), against an independent Source Map v3 decoder written as specification; model tied to the code by a regenerated alphabet table and a differential correspondence suite over the public API.",
+        level_note="Trusted: Coq kernel, translator xjs2v (base64 alphabet), extraction (ExtrOcamlBasic only), Go harness + OCaml driver correspondence, the decoder specification. Modelled not verified: Go evaluation of the mapper (differentially tested).",
+        technique="Coq proof (induction over histories, finite sweeps by vm_compute) + model/implementation correspondence",
         suites=[dict(suite="smap", n_quick=3000, n_thorough=100000,
                      what="SourceMapper histories: Version, Names, Mappings")],
         oracle_n_quick=2000, oracle_n_thorough=100000,
@@ -27,6 +31,10 @@ PROPS = {
         trusted_extra=["specification side: VLQ.decode_vlq, SourceMap.decode_mappings, SourceMap.breaks/tail_len (written from the Source Map v3 text, share no code with the encoder)"],
     ),
     "C10": dict(
+        design_ref="DESIGN.md 5.10",
+        level_text="Coq theorems over an executable model of the lexer for all byte strings: termination, tiling by trivia gaps and lexemes, exact start/end positions, literal slices and keyword classification, after-newline flag, EOF fixed point. The model uses the byte predicates and keyword table regenerated from the source on every run and is tied to the scanning loops by a differential correspondence suite over every token field.",
+        level_note="Trusted: Coq kernel, translator xjs2v (predicates, keyword table), extraction, harness/driver correspondence, LexSpec.v. Modelled not verified: the hand-written scanner model (differentially tested on fragments, programs, random and mutated bytes).",
+        technique="Coq proof (induction over the input with a cursor/position invariant) + model/implementation correspondence",
         suites=[dict(suite="lex", n_quick=4000, n_thorough=200000,
                      what="byte strings: every field of the first len+3 tokens")],
         oracle_n_quick=4000, oracle_n_thorough=200000,
@@ -41,4 +49,18 @@ PROPS = {
         ],
         trusted_extra=["specification side: LexSpec.v (consumed, spans, is_trivia, token_positions_ok), Base.pos_of_offset"],
     ),
+    "C13": dict(
+        design_ref="DESIGN.md 5.13",
+        level_text="Coq theorems over an executable model of the whole parser, for all token lists and all configurations: a strict run without errors is reproduced exactly by tolerant mode; tolerant mode never reports separator / unclosed-block errors; smart-semicolon mode is identical to default mode unless a '(' or '[' token follows a line break. The parser model is tied to the code by regenerated tables and a differential suite over trees, errors and final state in all four modes.",
+        level_note="Trusted: Coq kernel, translator xjs2v (token/precedence/handler tables, ASI list), extraction, harness/driver correspondence. Modelled not verified: the hand-written parser control flow (differentially tested on programs, token-level mutations and fragment soups x 4 modes). Open: the clauses 'tolerant accepts two statements on one line / open blocks keeping complete statements' and 'smart semicolon = as if a semicolon preceded' are explored by the oracle, not yet theorems.",
+        technique="Coq proof (simulation of two parser runs by induction on fuel) + model/implementation correspondence",
+        suites=[dict(suite="parse", n_quick=3000, n_thorough=100000,
+                     what="sources x {strict,tolerant} x {smart on,off}: tree, EOF token, errors, error flag, final context")],
+        oracle=False,
+        explanation="C13: tolerant_conservative, tolerant_no_separator_errors, smart_neutral proved for all token lists and configurations.",
+        open_statements=["C13_tolerant_accepts (two statements on one line, open blocks: complete statements kept)", "C13_smart_as_semicolon"],
+        assumptions=["token lists come from the lexer model (C10); the parser never feeds back into the lexer"],
+    ),
 }
+
+NOT_CLAIMED = {}
